@@ -62,6 +62,25 @@ def run(ctx):
                                           {"how": "lock/commit events recorded by the fstxn hooks (harness conc)", "trace": parts[-1]})
             except Break as b:
                 ctx.breaks.append(b)
+        # the slot cache: a slot must stand for ONE id for ever — callers keep the slot pointer across blocking disk reads, protected
+        # only by the lock of "their" inode; a slot handed on to another id is one memory cell under two locks
+        cf = os.path.join(ctx.scratch, "cache.txt")
+        rc, err = ctx.harness(["cache", "-seed", str(ctx.seed)] + (["-seqs", "200", "-ops", "1000"] if ctx.tier == "thorough" else ["-seqs", "30", "-ops", "400"]), cf)
+        if rc != 0:
+            ctx.breaks.append(Break("correspondence", "harness cache failed to run", err[-2000:]))
+        elif ok_drv:
+            try:
+                n, mism, _ = ctx.driver("cache", cf)
+                ctx.cov["traces_validated_against_impl"] += n
+                ctx.cov["evaluations"] += n
+                ctx.cov["cache_lookups_compared"] = n
+                if mism:
+                    ctx.breaks.append(Break("correspondence", "slot-cache model and cache.Cache disagree on the identity of the slot returned", "\n".join(mism[:8])))
+                    ctx.add_violation("cache:slot-identity", mism[0][:400],
+                                      {"how": "harness cache: random LookupSlot calls on the real cache.Cache; slots numbered by first appearance of their address; "
+                                              "a slot returned for two different ids is shared by transactions holding different inode locks", "all": mism[:8]})
+            except Break as b:
+                ctx.breaks.append(b)
         if ctx.tier == "thorough":
             race_run(ctx)
     sk = os.path.join(vlib.LEAN, "GoNfsd", "Gen", "Skeleton.lean")
